@@ -200,12 +200,6 @@ def harvest (cfg : Cfg) (s : St) : List Src :=
   | .select => (if s.ready cfg .ev then [Src.ev] else []) ++ (if s.ready cfg .io then [Src.io] else [])
   | .epoll => s.rdl.filter (s.ready cfg)
 
-/-- epoll_wait empties the ready list -/
-def harvested (cfg : Cfg) (s : St) : St :=
-  match cfg.backend with
-  | .epoll => { s with rdl := [] }
-  | _ => s
-
 def inSet (cfg : Cfg) (s : St) : Src → Bool
   | .ev => s.evAdded
   | .io => cfg.ioCtx
@@ -214,7 +208,7 @@ def inSet (cfg : Cfg) (s : St) : Src → Bool
 def signal (cfg : Cfg) (s : St) (x : Src) : St :=
   { s with seq := s.seq + 1,
            rdl := if cfg.backend = .epoll ∧ inSet cfg s x = true ∧ x ∉ s.rdl then s.rdl ++ [x] else s.rdl,
-           pc := if s.pc cfg.lt = .blocked then upd s.pc cfg.lt .woken else s.pc }
+           pc := upd s.pc cfg.lt (if s.pc cfg.lt = .blocked then .woken else s.pc cfg.lt) }
 
 def woke (cfg : Cfg) (s : St) : Nat := if s.pc cfg.lt = .blocked then 1 else 0
 
@@ -233,14 +227,30 @@ def releaseNotes (cfg : Cfg) (t : Nat) (cs : List Ctx) : List String :=
 def release (s : St) (cs : List Ctx) : St :=
   { s with relLog := s.relLog ++ cs, uaf := s.uaf + (cs.filter (· ∈ s.relLog)).length }
 
-/-- dispatch the reported sources up to the next scheduling point of the loop thread:
-a readable I/O context is read by the message callback (no scheduling point), the eventfd leads
-to `handle_wakeup` (first step: `clearup`), an exhausted plan to the exit check -/
-def advance (cfg : Cfg) (s : St) (t : Nat) : List Src → St
-  | [] => { s with plan := [], pc := upd s.pc t .chkExit }
-  | .ev :: rest => { s with plan := rest, pc := upd s.pc t .clearup }
-  | .io :: rest =>
-    advance cfg { s with ioPend := 0, uaf := s.uaf + (if cfg.ioId ∈ s.relLog then 1 else 0) } t rest
+/-- where the loop thread stands after dispatching the reported sources up to its next scheduling
+point: a readable I/O context is read by the message callback (no scheduling point), the eventfd
+leads to `handle_wakeup` (first step: `clearup`), an exhausted plan to the exit check -/
+def advPc : List Src → Pc
+  | [] => .chkExit
+  | .ev :: _ => .clearup
+  | .io :: rest => advPc rest
+
+/-- what remains to dispatch after `handle_wakeup` -/
+def advPlan : List Src → List Src
+  | [] => []
+  | .ev :: rest => rest
+  | .io :: rest => advPlan rest
+
+/-- number of invocations of the message callback on the I/O context -/
+def advIo : List Src → Nat
+  | [] => 0
+  | .ev :: _ => 0
+  | .io :: rest => advIo rest + 1
+
+def advance (cfg : Cfg) (s : St) (t : Nat) (pl : List Src) : St :=
+  { s with ioPend := if advIo pl = 0 then s.ioPend else 0,
+           uaf := s.uaf + (if cfg.ioId ∈ s.relLog then advIo pl else 0),
+           plan := advPlan pl, pc := upd s.pc t (advPc pl) }
 
 def advanceNotes (t : Nat) (ioPend : Nat) : List Src → List String
   | [] => []
@@ -249,9 +259,11 @@ def advanceNotes (t : Nat) (ioPend : Nat) : List Src → List String
 
 /-- the real poll call inside our wrapper: dispatch if something is ready, else prepare to park -/
 def pollNow (cfg : Cfg) (s : St) (t : Nat) : St :=
-  match harvest cfg s with
-  | [] => { harvested cfg s with pc := upd s.pc t (.fwait s.seq) }
-  | p :: ps => advance cfg (harvested cfg s) t (p :: ps)
+  { s with rdl := if cfg.backend = .epoll then [] else s.rdl,
+           ioPend := if advIo (harvest cfg s) = 0 then s.ioPend else 0,
+           uaf := s.uaf + (if cfg.ioId ∈ s.relLog then advIo (harvest cfg s) else 0),
+           plan := advPlan (harvest cfg s),
+           pc := upd s.pc t (if harvest cfg s = [] then .fwait s.seq else advPc (harvest cfg s)) }
 
 def pollNotes (cfg : Cfg) (s : St) (t : Nat) : List String := advanceNotes t s.ioPend (harvest cfg s)
 
@@ -261,8 +273,8 @@ def addOk (cfg : Cfg) (s : St) (t : Nat) (c : Ctx) : Bool :=
 
 /-- return from `muggle_evloop_exit` -/
 def exitReturn (cfg : Cfg) (s : St) (t : Nat) : St :=
-  if t = cfg.lt then { s with pc := upd s.pc t .wkChk }
-  else { s with pc := upd s.pc t .done, exitCalls := s.exitCalls + 1 }
+  { s with pc := upd s.pc t (if t = cfg.lt then .wkChk else .done),
+           exitCalls := s.exitCalls + (if t = cfg.lt then 0 else 1) }
 
 def exitNotes (cfg : Cfg) (t : Nat) : List String :=
   if t = cfg.lt then [] else [s!"T{t} note exit-done"]
